@@ -254,6 +254,10 @@ def material(w, as_expr=False, soup=None, sources=None, op_kind='app'):
     if kind == 'c':
         n = copy_material(w, soup)
         return n.expr if as_expr else n
+    if kind == 'd':
+        if as_expr:
+            raise OutOfDomain('a whole document in an argument list')
+        return T.TexSoup(dec(payload))                  # the parsed document itself, as one piece
     raise ValueError(w)
 
 
@@ -479,6 +483,25 @@ SRC_STRS = ['\\ref {fig}', '\\textbf a', '\\emph [a] {b}', '\\section\n{T}', '\\
             '\\x{a}', '\\\\ \\$']
 
 
+# whole parsed documents handed in as ONE piece (`d:`): blank-only text at their top level
+DOC_SRCS = ['\\alpha \\beta', '\\a{1}\n\\b{2}\n', ' \\x', '\\x ', ' ', '$x$ $y$', '\\x\n', '{a} {b}\n\\x', '\\new{y}',
+            '\\begin{a}t\\end{a} \\begin{a}t\\end{a}', 'a \\x b', '\n\n']
+
+
+def uses_doc(ops):
+    """Does a history use a whole document as material?  The model splices the elements of the
+    document where the implementation nests its root as one element: equal serialisations,
+    different trees - the canonical trees are then not compared (`same_answer`)."""
+    return any(m[0] == 'd' for op in ops for m in _mat_words(op))
+
+
+def same_answer(a, m, ops):
+    """Model and implementation answers agree (without the final tree after `d:` material)."""
+    if a == m:
+        return True
+    return uses_doc(ops) and a.rsplit(';', 1)[0] == m.rsplit(';', 1)[0]
+
+
 def gen_str(rng, src=0.3):
     """A plain string for new material: a word/blank, or (probability `src`) LaTeX source."""
     return rng.choice(SRC_STRS) if rng.random() < src else rng.choice(MAT_STRS)
@@ -508,13 +531,16 @@ def inner_text(src, sel):
     return _INNER_TEXT[(src, sel)]
 
 
-def gen_mats(rng, lo=1, hi=3, inner=0.12):
-    """1..3 new items: nodes parsed at the top level of a snippet (`n:`), plain strings (`s:`)
-    and, with probability `inner` each, a node taken from inside a snippet (`i:`)."""
+def gen_mats(rng, lo=1, hi=3, inner=0.12, docs=0.0):
+    """1..3 new items: nodes parsed at the top level of a snippet (`n:`), plain strings (`s:`),
+    with probability `inner` each a node taken from inside a snippet (`i:`) and with
+    probability `docs` each a whole parsed document as one piece (`d:`)."""
     out = []
     for _ in range(rng.randint(lo, hi)):
         r = rng.random()
-        if r < inner:
+        if rng.random() < docs:
+            out.append('d:' + enc(rng.choice(DOC_SRCS)))
+        elif r < inner:
             out.append(inner_mat(*rng.choice(INNER_MATS)))
         elif r < inner + (1 - inner) * 0.6:
             out.append('n:' + enc(rng.choice(MAT_NODES)))
@@ -559,10 +585,15 @@ def _string_ok(x):
     return len(c) == 1 and isinstance(c[0], str)
 
 
-def gen_op(rng, soup):
+def past_end(rng, ln):
+    """An insertion index beyond the end of a list of length ln (list.insert clamps: append)."""
+    return rng.choice([ln + 1, ln + 2, ln + 10, 99, 1000])
+
+
+def gen_op(rng, soup, docs=0.0):
     """One op on the current tree. Mostly ops that succeed, with a share (~10%) of ops the
     implementation refuses (insertion into a plain command, `.string` of a node that has
-    none, ...)."""
+    none, ...).  `docs`: probability of a whole parsed document (`d:`) per new piece."""
     from TexSoup import data as D
     targets, containers = enum_tree(soup)
     sloppy = rng.random() < 0.1
@@ -572,14 +603,15 @@ def gen_op(rng, soup):
         path, ln, x = rng.choice(good or containers)
         c = show_path(path)
         if kind == 'app':
-            return 'app %s %s' % (c, gen_mats(rng))
-        i = rng.randint(0, ln + (2 if rng.random() < 0.15 else 0))
-        return 'ins %s %d %s' % (c, i, gen_mats(rng))
+            return 'app %s %s' % (c, gen_mats(rng, docs=docs))
+        if rng.random() < 0.15:                         # beyond the end, mostly with several pieces
+            return 'ins %s %d %s' % (c, past_end(rng, ln), gen_mats(rng, 2 if rng.random() < 0.7 else 1, 3, docs=docs))
+        return 'ins %s %d %s' % (c, rng.randint(0, ln), gen_mats(rng, docs=docs))
     if kind == 'del':
         return 'del ' + show_path(rng.choice(targets)[0])
     if kind == 'rep':
         return 'rep %s %s' % (show_path(rng.choice(targets)[0]),
-                              gen_mats(rng, 0 if rng.random() < 0.1 else 1, 3))
+                              gen_mats(rng, 0 if rng.random() < 0.1 else 1, 3, docs=docs))
     named = [t for t in targets if sloppy or isinstance(t[1], (D.TexCmd, D.TexNamedEnv))]
     if kind == 'ren' and named:
         return 'ren %s %s' % (show_path(rng.choice(named)[0]), enc(rng.choice(NAMES)))
@@ -594,14 +626,19 @@ def gen_op(rng, soup):
     return 'del ' + show_path(rng.choice(targets)[0])
 
 
-def gen_ops(rng, source, n):
+DOC_SHARE = 0.12
+
+
+def gen_ops(rng, source, n, docs_any=False):
     """A valid history: every target is re-acquired by path in the tree as it is after the
-    previous steps (tracked on the real objects)."""
+    previous steps (tracked on the real objects).  Whole documents as material (`d:`) occur in
+    the last step only (after them model and implementation trees differ, see `uses_doc`),
+    unless `docs_any` (implementation-only runs)."""
     T = common.impl()
     soup = T.TexSoup(source)
     ops = []
     for k in range(n):
-        op = gen_op(rng, soup)
+        op = gen_op(rng, soup, DOC_SHARE if (docs_any or k == n - 1) else 0.0)
         ops.append(op)
         try:
             apply_op(soup, op, salt=k)
@@ -672,7 +709,7 @@ def compare(cases, driver=None):
     bad = []
     for (s, ops), m in zip(cases, model):
         i = impl_edit(s, ops)
-        if i != m:
+        if not same_answer(i, m, ops):
             bad.append((s, ops, i, m))
     return bad
 
@@ -937,7 +974,7 @@ class Op(object):
         w = op.split(' ')
         self.op, self.kind = op, w[0]
         self.path = parse_path(w[1])
-        self.index = self.name = self.string = self.sub = None
+        self.index = self.name = self.string = self.sub = self.bounds = self.inner = None
         self.mats, self.nums = [], []
         k = self.kind
         if k == 'rep':
@@ -953,25 +990,9 @@ class Op(object):
         elif k == 'args':
             self.mats = fresh_list(w[2], True, soup, sources, 'args')
         elif k == 'aop':
-            self.sub = w[2]
-            if self.sub in ('app', 'ext'):
-                self.mats = [argmat(x) for x in w[3].split(',')]
-            elif self.sub == 'ins':
-                self.nums, self.mats = [int(w[3])], [argmat(w[4])]
-            elif self.sub in ('pop', 'rem'):
-                self.nums = [int(w[3])]
-            elif self.sub == 'sl':
-                self.nums = [int(w[3]), int(w[4])]
-            elif self.sub == 'perm':
-                self.nums = [int(x) for x in w[3].split(',')] if w[3] != '_' else []
-            elif self.sub == 'sins':
-                self.nums, self.mats = [int(w[3])], [argmat(w[4])]
-            elif self.sub == 'sapp':
-                self.mats = [argmat(w[3])]
-            elif self.sub == 'spop':
-                self.nums = [int(w[3])]
-            elif self.sub not in ('rev', 'rs', 'clr', 'same', 'srev'):
-                raise ValueError(op)
+            lop = _LOp(w[2:], op)
+            self.sub, self.nums, self.mats = lop.sub, lop.nums, lop.mats
+            self.bounds, self.inner = lop.bounds, lop.inner
         elif k != 'del':
             raise ValueError(op)
 
@@ -991,6 +1012,41 @@ def argmat(w):
     return fresh(w, as_expr=True)
 
 
+def _bound(w):
+    return None if w == '_' else int(w)
+
+
+class _LOp(object):
+    """A parsed operation on an argument list (the words behind `aop P`)."""
+
+    def __init__(self, w, op=''):
+        self.sub = sub = w[0]
+        self.nums, self.mats, self.bounds, self.inner = [], [], None, None
+        if sub in ('app', 'ext'):
+            self.mats = [argmat(x) for x in w[1].split(',')]
+        elif sub in ('ins', 'sins', 'set'):
+            self.nums, self.mats = [int(w[1])], [argmat(w[2])]
+        elif sub in ('pop', 'rem', 'spop'):
+            self.nums = [int(w[1])]
+        elif sub == 'sl':
+            self.bounds = (_bound(w[1]), _bound(w[2]))
+            self.nums = list(self.bounds)
+        elif sub == 'perm':
+            self.nums = [int(x) for x in w[1].split(',')] if w[1] != '_' else []
+        elif sub == 'sapp':
+            self.mats = [argmat(w[1])]
+        elif sub in ('ks', 'kc', 'kca'):
+            self.bounds = (_bound(w[1]), _bound(w[2]))
+            self.inner = _LOp(w[3:], op)
+            self.mats = self.inner.mats
+        elif sub not in ('rev', 'rs', 'clr', 'same', 'srev'):
+            raise ValueError(op or ' '.join(w))
+
+
+class KeptSliceChanged(Exception):
+    """A slice taken from `node.args` changed when the node's list was edited in place."""
+
+
 SELF_ASSIGN = {'same': None, 'srev': 'rev', 'spop': 'pop', 'sins': 'ins', 'sapp': 'app'}
 
 
@@ -999,6 +1055,18 @@ def _list_op(P, ref):
     self-assignment forms (`a = node.args; <edit a in place>; node.args = a`) mean the list as it
     is after the in-place edit."""
     s = P.sub
+    if s in ('ks', 'kc', 'kca'):
+        # a slice is a copy: keep = args[lo:hi]; ks: <inner on args>; args = keep
+        #                    kc: <inner on keep> (args as they were); kca: ... then args = keep
+        keep = list(ref[P.bounds[0]:P.bounds[1]])
+        if s == 'ks':
+            _list_op(P.inner, list(ref))
+            ref[:] = keep
+        elif s == 'kc':
+            _list_op(P.inner, keep)
+        else:
+            ref[:] = _list_op(P.inner, keep)
+        return ref
     if s in SELF_ASSIGN:
         s = SELF_ASSIGN[s]
         if s is None:
@@ -1023,6 +1091,8 @@ def _list_op(P, ref):
         ref[:] = ref[P.nums[0]:P.nums[1]]
     elif s == 'perm':
         ref[:] = [ref[i] for i in P.nums]
+    elif s == 'set':
+        ref[P.nums[0]] = P.mats[0]
     return ref
 
 
@@ -1161,6 +1231,21 @@ def perform(soup, P, variant=0):
             node.args = node.args[P.nums[0]:P.nums[1]]
         elif s == 'perm':
             node.args = D.TexArgs([node.args[i] for i in P.nums])
+        elif s == 'set':
+            node.args[P.nums[0]] = P.mats[0]
+        elif s in ('ks', 'kc', 'kca'):
+            old = list(node.args)[P.bounds[0]:P.bounds[1]]
+            keep = node.args[P.bounds[0]:P.bounds[1]]   # a slice is a copy ...
+            if s == 'ks':
+                _in_place(node.args, P.inner)           # ... so editing the list itself
+                if [id(a) for a in keep] != [id(a) for a in old]:
+                    raise KeptSliceChanged('the slice taken before holds %r, not %r' % (
+                        ''.join(map(str, keep)), ''.join(map(str, old))))
+                node.args = keep                        # ... and putting the slice back gives the old elements
+            else:
+                _in_place(keep, P.inner)                # editing the copy leaves the node alone
+                if s == 'kca':
+                    node.args = keep
         elif s in SELF_ASSIGN:
             a = node.args                               # the live handle
             if s == 'srev':
@@ -1172,6 +1257,25 @@ def perform(soup, P, variant=0):
             elif s == 'sapp':
                 a.append(P.mats[0])
             node.args = a                               # ... put back
+
+
+def _in_place(lst, lop):
+    """The in-place forms on a TexArgs object."""
+    s = lop.sub
+    if s == 'rev':
+        lst.reverse()
+    elif s == 'clr':
+        lst.clear()
+    elif s == 'pop':
+        lst.pop(lop.nums[0])
+    elif s == 'ins':
+        lst.insert(lop.nums[0], lop.mats[0])
+    elif s == 'app':
+        lst.append(lop.mats[0])
+    elif s == 'set':
+        lst[lop.nums[0]] = lop.mats[0]
+    else:
+        raise ValueError(s)
 
 
 # ----------------------------------------------------------------------------- tree snapshots
@@ -1409,6 +1513,8 @@ def gen_aop(rng, soup):
     p, n = show_path(path), len(x.args)
     sub = rng.choice(['app', 'app', 'ext', 'ins', 'ins', 'pop', 'pop', 'rem', 'rev', 'rs', 'clr', 'sl', 'perm',
                       'same', 'srev', 'spop', 'sins', 'sapp'])
+    if rng.random() < 0.25:                             # kept slices / slot assignment
+        return 'aop %s %s' % (p, gen_kept(rng, n))
     if sub == 'sapp':
         return 'aop %s sapp %s' % (p, rng.choice(AOP_MATS))
     if sub == 'sins':
@@ -1434,11 +1540,39 @@ def gen_aop(rng, soup):
     return 'aop %s %s' % (p, sub)
 
 
+def slice_bounds(n):
+    """Bound shapes of a slice of a list of length n: the full-range ones in all spellings,
+    prefixes, suffixes, inner, negative, beyond the end."""
+    out = [('_', '_'), ('0', '_'), ('_', str(n)), ('_', '99'), ('0', str(n)), ('-99', '_'), ('1', '_'),
+           ('_', str(max(n - 1, 0))), ('_', '-1'), ('-1', '_'), ('1', str(n)), ('0', '0'), ('_', str(n + 1))]
+    if n:
+        out.append((str(-n), '_'))
+    return out
+
+
+def gen_kept(rng, n, mats=None):
+    """`ks lo hi <in-place op on the node's list>` or `kc/kca lo hi <op on the kept slice>`."""
+    mats = mats or AOP_MATS
+    gm = [m for m in mats if m[0] != 's']
+    r = rng.random()
+    # (a bare slot assignment `args[i] = M` is not generated on its own: list.__setitem__ is not overridden, the
+    # shadow list .all keeps the old object and a later pop/remove of the new one raises after mutating - TexArgs
+    # bookkeeping, property C18; inside `ks` the list is replaced by the kept slice afterwards)
+    lo, hi = rng.choice(slice_bounds(n)) if rng.random() < 0.8 else (str(rng.randint(-n, n)), str(rng.randint(-n, n + 1)))
+    if r < 0.7:
+        inner = rng.choice(['rev', 'clr', 'pop %d' % rng.randint(-n, max(n - 1, 0)),
+                            'ins %d %s' % (rng.randint(0, n), rng.choice(gm)), 'app %s' % rng.choice(gm),
+                            'set %d %s' % (rng.randint(-n, max(n - 1, 0)), rng.choice(gm))])
+        return 'ks %s %s %s' % (lo, hi, inner)
+    inner = rng.choice(['pop 0', 'rev', 'pop -1'])
+    return '%s %s %s %s' % ('kc' if r < 0.85 else 'kca', lo, hi, inner)
+
+
 def step_variant(k, op):
     return zlib.crc32(('%d/%s' % (k, op)).encode()) & 1
 
 
-def gen_history(rng, source, n, aop_share=0.2):
+def gen_history(rng, source, n, aop_share=0.2, docs_any=False):
     """Like gen_ops, with a share of TexArgs operations (`aop`); the tree is tracked through
     `perform`."""
     T = common.impl()
@@ -1446,7 +1580,7 @@ def gen_history(rng, source, n, aop_share=0.2):
     ops = []
     for k in range(n):
         op = gen_aop(rng, soup) if rng.random() < aop_share else None
-        op = op or gen_op(rng, soup)
+        op = op or gen_op(rng, soup, DOC_SHARE if (docs_any or k == n - 1) else 0.0)
         ops.append(op)
         try:
             P = Op(op)
@@ -1748,6 +1882,8 @@ def mat_show(m):
         return 'copy() of the node at %s' % m[2:]
     if m[0] == 'g':
         return 'the first argument of %s' % dec(m[2:])
+    if m[0] == 'd':
+        return 'TexSoup(%r)' % dec(m[2:])
     return 'node(%s)' % dec(m[2:])
 
 
